@@ -138,17 +138,55 @@ def index_enumerated(ctx, case):
     # (kept to the helper level here; element access is C04's subject)
 
 
+_IDX_DTYPES = dict(int64=np.int64, int32=np.int32, intp=np.intp, uint8=np.uint8, int16=np.int16, uint16=np.uint16,
+                   uint32=np.uint32, int8=np.int8)
+_SHAPE_ENTRY = {"int": int, "np.int64": np.int64, "np.int32": np.int32, "np.uint8": np.uint8, "np.int16": np.int16}
+
+
+def _fits(dt, lo, hi):
+    ii = np.iinfo(dt)
+    return ii.min <= lo and hi <= ii.max
+
+
 @st.composite
 def _index_subset(draw, tier):
     n = draw(st.integers(1, 5 if tier == "quick" else 6))
-    big = draw(st.booleans())
-    shape = [draw(st.integers(1, 60 if big else 6)) for _ in range(n)]
+    big = draw(st.sampled_from(["small", "small", "medium", "large"]))
+    cap = dict(small=6, medium=60, large=300)[big]
+    shape = [draw(st.integers(1, cap)) for _ in range(n)]
     size = ref.prod(shape)
     k = draw(st.integers(0, 12))
-    idx = draw(st.lists(st.integers(0, size - 1), min_size=k, max_size=k))
+    region = draw(st.sampled_from(["any", "any", "low", "high"]))  # low: indices that fit the narrow dtypes
+    top = size - 1 if region != "low" else min(size - 1, 100)
+    bot = 0 if region != "high" else max(0, size - 1 - 100)
+    idx = draw(st.lists(st.integers(bot, top), min_size=k, max_size=k))
     neg = draw(st.lists(st.booleans(), min_size=k, max_size=k)) if draw(st.booleans()) else [False] * k
-    form = draw(st.sampled_from(["int64", "int32", "intp"]))
-    return dict(shape=shape, idx=idx, neg=neg, dtype=form)
+    form = draw(st.sampled_from(["int64", "int64", "int32", "intp", "uint8", "int16", "uint16", "uint32", "int8"]))
+    return dict(shape=shape, idx=idx, neg=neg, dtype=form, order=draw(st.sampled_from(["F", "F", None, "C"])),
+                shape_entry=draw(st.sampled_from(["int", "int", "np.int64", "np.int32", "np.uint8", "np.int16"])),
+                layout=draw(st.sampled_from(["fresh", "strided", "F-ordered"])))
+
+
+def subset_classes(case):
+    """pure function of the case: the dtype actually used for the index array / the shape entries, and whether
+    arithmetic carried out in those dtypes would overflow (labels, clause tags and predicates)"""
+    shape = [int(x) for x in case["shape"]]
+    size = ref.prod(shape)
+    idx = list(case["idx"])
+    dt = _IDX_DTYPES[case.get("dtype", "int64")]
+    neg = list(case["neg"])
+    if np.issubdtype(dt, np.unsignedinteger):
+        neg = [False] * len(idx)
+    given = [i - size if ng else i for i, ng in zip(idx, neg)]
+    if given and not _fits(dt, min(given), max(given)):
+        dt = np.int64
+    se = case.get("shape_entry", "int")
+    if se != "int" and not _fits(_SHAPE_ENTRY[se], 0, max(shape)):
+        se = "int"
+    idx_holds_size = _fits(dt, 0, size)
+    shape_prod_fits = se == "int" or _fits(_SHAPE_ENTRY[se], 0, size)
+    return dict(dt=dt, given=given, shape_entry=se, idx_dtype_holds_size=idx_holds_size, shape_prod_fits=shape_prod_fits,
+                has_negative=any(neg))
 
 
 @cell("C17/index/subsets", strategy=_index_subset, quick=1500, thorough=16000, shards=(2, 8))
@@ -156,32 +194,61 @@ def index_subsets(ctx, case):
     shape = tuple(case["shape"])
     size = ref.prod(shape)
     idx = list(case["idx"])
-    given_idx = [i - size if ng else i for i, ng in zip(idx, case["neg"])]
+    sc = subset_classes(case)
+    dt, given_idx = sc["dt"], sc["given"]
+    order = case.get("order", None)
+    okw = {} if order is None else dict(order=order)
     ctx.nt = len(set(shape)) >= 2 and len(idx) >= 1
-    ctx.label("empty" if not idx else "nonempty", "has-negative" if any(case["neg"]) else "no-negative",
-              "repeats" if len(set(idx)) < len(idx) else "distinct", f"order{len(shape)}")
+    ctx.label("empty" if not idx else "nonempty", "has-negative" if sc["has_negative"] else "no-negative",
+              "repeats" if len(set(idx)) < len(idx) else "distinct", f"order{len(shape)}", "idx-" + np.dtype(dt).name,
+              "shape-entries-" + sc["shape_entry"], f"order-arg-{order}",
+              "idx-dtype-holds-size" if sc["idx_dtype_holds_size"] else "idx-dtype-narrower-than-size",
+              "shape-product-fits-entry-dtype" if sc["shape_prod_fits"] else "shape-product-overflows-entry-dtype",
+              "layout-" + case.get("layout", "fresh"))
     expect_subs = []
     for i in idx:
         s, r = [], i
-        for nmode in shape:
+        for nmode in (shape if order != "C" else shape[::-1]):
             s.append(r % nmode)
             r //= nmode
-        expect_subs.append(s)
+        expect_subs.append(s if order != "C" else s[::-1])
     expect = np.array(expect_subs, dtype=int).reshape(len(idx), len(shape))
-    dt = dict(int64=np.int64, int32=np.int32, intp=np.intp)[case["dtype"]]
-    if size - 1 > np.iinfo(np.int32).max:
-        dt = np.int64
-    with ctx.sut("tt_ind2sub"):
-        s = ttu.tt_ind2sub(shape, np.array(given_idx, dtype=dt))
+    shape_arg = tuple(_SHAPE_ENTRY[sc["shape_entry"]](x) for x in shape)
+
+    def present(a):
+        lay = case.get("layout", "fresh")
+        if lay == "strided" and a.ndim >= 1:
+            big = np.zeros((2 * a.shape[0],) + a.shape[1:], dtype=a.dtype)
+            big[::2] = a
+            return big[::2]
+        if lay == "F-ordered":
+            return np.asfortranarray(a)
+        return a
+
+    tag = ("" if sc["idx_dtype_holds_size"] else "/idx-dtype-narrower-than-size") + \
+          ("" if sc["shape_prod_fits"] else "/shape-product-overflows-entry-dtype")
+    lin_arg = present(np.array(given_idx, dtype=dt))
+    keep = lin_arg.copy()
+    with ctx.sut("tt_ind2sub" + tag):
+        s = ttu.tt_ind2sub(shape_arg, lin_arg, **okw)
     s = np.asarray(s)
     ctx.require(s.shape == expect.shape, "ind2sub-result-shape", s.shape)
-    ctx.check(np.array_equal(s, expect), "ind2sub-subset", f"{s.tolist()} vs {expect.tolist()}")
-    with ctx.sut("tt_sub2ind"):
-        l = ttu.tt_sub2ind(shape, expect.astype(dt))
+    ctx.check(np.array_equal(s, expect), "ind2sub-subset" + tag, f"{s.tolist()} vs {expect.tolist()}")
+    ctx.check(np.array_equal(lin_arg, keep), "ind2sub-leaves-argument")
+    sub_arg = present(expect.astype(dt if _fits(dt, 0, max(shape)) else np.int64))
+    with ctx.sut("tt_sub2ind" + tag):
+        l = ttu.tt_sub2ind(shape_arg, sub_arg, **okw)
     l = np.asarray(l)
     ctx.require(l.size == len(idx), "sub2ind-result-size", l.shape)
-    ctx.check(l.reshape(-1).tolist() == [ref.lin_index(s_, shape) for s_ in expect_subs] and
-              l.reshape(-1).tolist() == idx, "sub2ind-subset", f"{l.tolist()} vs {idx}")
+    ctx.check(l.reshape(-1).tolist() == idx and
+              (order == "C" or l.reshape(-1).tolist() == [ref.lin_index(s_, shape) for s_ in expect_subs]),
+              "sub2ind-subset" + tag, f"{l.tolist()} vs {idx}")
+    # the k-th call depends only on its own arguments: overwrite the first answers, ask again
+    if s.size and s.flags.writeable:
+        s[...] = -7
+    with ctx.sut("tt_ind2sub-again" + tag):
+        s2 = np.asarray(ttu.tt_ind2sub(shape_arg, present(np.array(given_idx, dtype=dt)), **okw))
+    ctx.check(s2.shape == expect.shape and np.array_equal(s2, expect), "ind2sub-second-call-same-answer" + tag)
 
 
 # ==========================================================================
@@ -206,6 +273,8 @@ def _present(vals, form):
         return int(vals[0])
     if form == "npscalar":
         return np.int64(vals[0])
+    if form.startswith("ndarray-"):  # other integer dtypes of the mode designation
+        return np.array(vals, dtype=np.dtype(form[len("ndarray-"):]))
     raise ValueError(form)
 
 
@@ -225,6 +294,13 @@ def _enum_dimscheck(tier):
                         Ms = [None] + (list(range(0, N + 2)) if fi < 2 else [])
                         for M in Ms:
                             yield dict(N=N, which=which, sel=list(sub), form=form, M=M)
+                    if k >= 1:
+                        # other integer dtypes (arithmetic on the designation must not be carried out in a narrow or
+                        # unsigned dtype), with N / M as numpy integers; the valid multiplicand counts only
+                        P = k if which == "dims" else N - k
+                        for form in ("ndarray-int32", "ndarray-uint8", "ndarray-uint64", "ndarray-int8"):
+                            for M in [None] + sorted({P, N}):
+                                yield dict(N=N, which=which, sel=list(sub), form=form, M=M, npN=True)
         for M in [None] + list(range(0, N + 2)):
             yield dict(N=N, which="default", sel=[], form="none", M=M)
 
@@ -251,8 +327,9 @@ def dimscheck_enumerated(ctx, case):
         # stated: "Cannot have more multiplicands than dimensions" / "Invalid number of multiplicands"
         ctx.raises("dimscheck-bad-multiplicand-count-accepted", ttu.tt_dimscheck, N, M, **kw)
         return
+    Narg, Marg = (np.int64(N), None if M is None else np.int32(M)) if case.get("npN") else (N, M)
     with ctx.sut("tt_dimscheck"):
-        out = ttu.tt_dimscheck(N, M, **kw)
+        out = ttu.tt_dimscheck(Narg, Marg, **kw)
     ctx.require(isinstance(out, tuple) and len(out) == 2, "dimscheck-returns-pair", type(out).__name__)
     sdims, vidx = out
     ctx.require(isinstance(sdims, np.ndarray) and sdims.ndim == 1, "dimscheck-sdims-1d-array", repr(sdims))
@@ -315,13 +392,42 @@ def dimscheck_errors(ctx, case):
 # ==========================================================================
 
 
-def _mat(rows, width, empty_form, dtype="int"):
-    dt = int if dtype == "int" else float
+_ROW_DTYPES = {"int": np.int64, "float": np.float64, "int32": np.int32, "uint8": np.uint8, "uint16": np.uint16,
+               "int8": np.int8}
+
+
+def _mat(rows, width, empty_form, dtype="int", layout="C"):
+    dt = _ROW_DTYPES[dtype]
     if len(rows) == 0:
         if empty_form == "1x0":
             return np.array([], ndmin=2, dtype=dt)  # what an empty sptensor stores
         return np.empty((0, width), dtype=dt)
-    return np.array(rows, dtype=dt).reshape(len(rows), width)
+    M = np.array(rows, dtype=dt).reshape(len(rows), width)
+    if layout == "F":  # e.g. the transposed array tt_ind2sub hands back
+        return np.asfortranarray(M)
+    if layout == "strided":  # every other row of a larger array
+        big = np.zeros((2 * len(rows), width), dtype=dt)
+        big[::2] = M
+        return big[::2]
+    return M
+
+
+def _mats(case, A, B, w):
+    """the two operands as arrays: dtype / memory layout per operand (``dtypeB`` / ``layoutB`` default to A's)"""
+    ef = case.get("empty_form", "0xw")
+    dA, lA = case.get("dtype", "int"), case.get("layout", "C")
+    return _mat(A, w, ef, _holding(dA, A), lA), _mat(B, w, ef, _holding(case.get("dtypeB", dA), B), case.get("layoutB", lA))
+
+
+def _holding(dtype, rows):
+    """``dtype`` if it can hold every entry of ``rows``, else int64 (an array is generated in a dtype that holds it)"""
+    dt = np.dtype(_ROW_DTYPES[dtype])
+    if dt.kind in "iu" and len(rows):
+        ii = np.iinfo(dt)
+        flat = [v for r in rows for v in r]
+        if min(flat) < ii.min or max(flat) > ii.max:
+            return "int"
+    return dtype
 
 
 def _tuples(rows):
@@ -362,7 +468,11 @@ def _rep_tag(pc, which):
     return f"{which}-repeats" if pc[f"{which.lower()}_repeats"] else f"{which}-distinct"
 
 
-def _label_pair(ctx, pc):
+def _label_pair(ctx, pc, case=None):
+    if case is not None and "dtypeB" in case:
+        ctx.label("dtypes-same" if case["dtype"] == case["dtypeB"] else "dtypes-mixed", "A-" + case["dtype"], "B-" + case["dtypeB"],
+                  "rows-alias-modulo-256" if case.get("alias") else "no-alias",
+                  "layout-" + case.get("layout", "C") + "/" + case.get("layoutB", "C"))
     ctx.label(
         "A-empty" if pc["a_empty"] else ("A-repeats" if pc["a_repeats"] else "A-distinct"),
         "B-empty" if pc["b_empty"] else ("B-repeats" if pc["b_repeats"] else "B-distinct"),
@@ -392,8 +502,7 @@ def check_intersect(ctx, case, tagged=True):
     A, B = _tuples(case["A"]), _tuples(case["B"])
     w = case["width"]
     pc = pair_class(case)
-    MA, MB = _mat(A, w, case.get("empty_form", "0xw"), case.get("dtype", "int")), _mat(
-        B, w, case.get("empty_form", "0xw"), case.get("dtype", "int"))
+    MA, MB = _mats(case, A, B, w)
     with ctx.sut("tt_intersect_rows(A,B)"):
         ia = ttu.tt_intersect_rows(MA.copy(), MB.copy())
     with ctx.sut("tt_intersect_rows(B,A)"):
@@ -426,8 +535,7 @@ def check_setdiff(ctx, case):
     A, B = _tuples(case["A"]), _tuples(case["B"])
     w = case["width"]
     pc = pair_class(case)
-    MA, MB = _mat(A, w, case.get("empty_form", "0xw"), case.get("dtype", "int")), _mat(
-        B, w, case.get("empty_form", "0xw"), case.get("dtype", "int"))
+    MA, MB = _mats(case, A, B, w)
     with ctx.sut("tt_setdiff_rows"):
         got = ttu.tt_setdiff_rows(MA.copy(), MB.copy())
     idx = _index_list(ctx, got, len(A), "setdiff")
@@ -444,8 +552,7 @@ def check_union(ctx, case):
     A, B = _tuples(case["A"]), _tuples(case["B"])
     w = case["width"]
     pc = pair_class(case)
-    MA, MB = _mat(A, w, case.get("empty_form", "0xw"), case.get("dtype", "int")), _mat(
-        B, w, case.get("empty_form", "0xw"), case.get("dtype", "int"))
+    MA, MB = _mats(case, A, B, w)
     with ctx.sut("tt_union_rows"):
         got = ttu.tt_union_rows(MA.copy(), MB.copy())
     ctx.require(isinstance(got, np.ndarray), "union-returns-array", type(got).__name__)
@@ -463,8 +570,9 @@ def check_union(ctx, case):
 def check_ismember(ctx, case):
     S, T = _tuples(case["A"]), _tuples(case["B"])  # search, source
     w = case["width"]
-    MS = _mat(S, w, "0xw", case.get("dtype", "int"))  # (1,0) as *search* would be one row of width 0: not used
-    MT = _mat(T, w, case.get("empty_form", "0xw"), case.get("dtype", "int"))
+    MS = _mat(S, w, "0xw", _holding(case.get("dtype", "int"), S), case.get("layout", "C"))  # (1,0) as *search* would be one row of width 0
+    MT = _mat(T, w, case.get("empty_form", "0xw"), _holding(case.get("dtypeB", case.get("dtype", "int")), T),
+              case.get("layoutB", case.get("layout", "C")))
     with ctx.sut("tt_ismember_rows"):
         out = ttu.tt_ismember_rows(MS.copy(), MT.copy())
     ctx.require(isinstance(out, tuple) and len(out) == 2, "ismember-returns-pair")
@@ -507,7 +615,10 @@ def _row_pair(draw, tier):
     """Constructed, not filtered: a pool of distinct rows, each assigned to both / A only / B only; every operand is a
     generated permutation of its rows with generated extra copies; empty operands in both storage forms."""
     w = draw(st.integers(1, 3))
-    letters = draw(st.sampled_from([[0, 1, 2], [0, 1, 2], [3, 0, 7], [1, 2, 5]]))
+    # alias mode: one operand is held in uint8, the other (int64) gets rows that differ from rows of the first by a
+    # multiple of 256 in one entry - distinct rows that coincide if either operand is cast to the other's dtype
+    alias = draw(st.sampled_from([None, None, None, "A-narrow", "B-narrow"]))
+    letters = [0, 1, 255] if alias else draw(st.sampled_from([[0, 1, 2], [0, 1, 2], [3, 0, 7], [1, 2, 5], [0, 255, 256, -1]]))
     pool = draw(st.lists(st.tuples(*[st.sampled_from(letters)] * w), min_size=1, max_size=6, unique=True))
     where = [draw(st.sampled_from(["both", "both", "both", "A", "B"])) for _ in pool]
     A = [list(r) for r, t in zip(pool, where) if t in ("both", "A")]
@@ -524,20 +635,32 @@ def _row_pair(draw, tier):
         return rows
 
     A, B = present(A), present(B)
-    mode = draw(st.sampled_from(["pair"] * 8 + ["empty-A", "empty-B"]))
+    if alias and A and B:
+        narrow, wide = (A, B) if alias == "A-narrow" else (B, A)
+        for _ in range(draw(st.integers(1, 2))):
+            r = list(narrow[draw(st.integers(0, len(narrow) - 1))])
+            r[draw(st.integers(0, w - 1))] += 256 * draw(st.sampled_from([1, -1, 2]))
+            wide.insert(draw(st.integers(0, len(wide))), r)
+    mode = draw(st.sampled_from(["pair"] * 8 + ["empty-A", "empty-B"])) if not alias else "pair"
     if mode == "empty-A":
         A = []
     elif mode == "empty-B":
         B = []
-    return dict(A=A, B=B, width=w, empty_form=draw(st.sampled_from(["1x0", "0xw"])),
-                dtype=draw(st.sampled_from(["int", "int", "float"])), mode=mode)
+    dts = ["int", "int", "int", "float", "int32", "uint8", "uint16", "int8"]
+    dA = draw(st.sampled_from(dts))
+    dB = dA if draw(st.booleans()) else draw(st.sampled_from(dts))  # same dtype or a generated mix
+    if alias:
+        dA, dB = ("uint8", "int") if alias == "A-narrow" else ("int", "uint8")
+    lays = ["C", "C", "F", "strided"]
+    return dict(A=A, B=B, width=w, empty_form=draw(st.sampled_from(["1x0", "0xw"])), dtype=dA, dtypeB=dB,
+                layout=draw(st.sampled_from(lays)), layoutB=draw(st.sampled_from(lays)), mode=mode, alias=alias)
 
 
 @cell("C17/rows/intersect/enumerated", enum=_enum_row_pairs, shards=(4, 16))
 def rows_intersect_enum(ctx, case):
     pc = pair_class(case)
     ctx.nt = _nt_pair(pc)
-    _label_pair(ctx, pc)
+    _label_pair(ctx, pc, case)
     check_intersect(ctx, case)
 
 
@@ -545,7 +668,7 @@ def rows_intersect_enum(ctx, case):
 def rows_intersect(ctx, case):
     pc = pair_class(case)
     ctx.nt = _nt_pair(pc)
-    _label_pair(ctx, pc)
+    _label_pair(ctx, pc, case)
     ctx.label("mode-" + case["mode"])
     check_intersect(ctx, case)
 
@@ -554,7 +677,7 @@ def rows_intersect(ctx, case):
 def rows_setdiff_enum(ctx, case):
     pc = pair_class(case)
     ctx.nt = _nt_pair(pc)
-    _label_pair(ctx, pc)
+    _label_pair(ctx, pc, case)
     check_setdiff(ctx, case)
 
 
@@ -562,7 +685,7 @@ def rows_setdiff_enum(ctx, case):
 def rows_setdiff(ctx, case):
     pc = pair_class(case)
     ctx.nt = _nt_pair(pc)
-    _label_pair(ctx, pc)
+    _label_pair(ctx, pc, case)
     check_setdiff(ctx, case)
 
 
@@ -570,7 +693,7 @@ def rows_setdiff(ctx, case):
 def rows_union_enum(ctx, case):
     pc = pair_class(case)
     ctx.nt = _nt_pair(pc)
-    _label_pair(ctx, pc)
+    _label_pair(ctx, pc, case)
     check_union(ctx, case)
 
 
@@ -578,7 +701,7 @@ def rows_union_enum(ctx, case):
 def rows_union(ctx, case):
     pc = pair_class(case)
     ctx.nt = _nt_pair(pc)
-    _label_pair(ctx, pc)
+    _label_pair(ctx, pc, case)
     check_union(ctx, case)
 
 
@@ -586,7 +709,7 @@ def rows_union(ctx, case):
 def rows_ismember_enum(ctx, case):
     pc = pair_class(case)
     ctx.nt = bool(pc["common"] and pc["a_only"])
-    _label_pair(ctx, pc)
+    _label_pair(ctx, pc, case)
     check_ismember(ctx, case)
 
 
@@ -594,7 +717,7 @@ def rows_ismember_enum(ctx, case):
 def rows_ismember(ctx, case):
     pc = pair_class(case)
     ctx.nt = bool(pc["common"] and pc["a_only"])
-    _label_pair(ctx, pc)
+    _label_pair(ctx, pc, case)
     check_ismember(ctx, case)
 
 
@@ -636,7 +759,7 @@ def rows_sptensor_subs(ctx, case):
     __eq__, __truediv__ pass): all four helpers"""
     pc = pair_class(case)
     ctx.nt = bool(pc["common_order_differs"])
-    _label_pair(ctx, pc)
+    _label_pair(ctx, pc, case)
     check_intersect(ctx, case)
     check_setdiff(ctx, case)
     check_union(ctx, case)
@@ -753,6 +876,14 @@ def parse_one_d_cell(ctx, case):
 
 
 def _enum_gather(tier):
+    for c in _enum_gather_int(tier):
+        yield c
+        if c["N"] <= 4:  # the same designations held in other integer dtypes
+            for dt in ("int32", "uint8"):
+                yield dict(c, dtype=dt)
+
+
+def _enum_gather_int(tier):
     for N in range(1, 6):
         modes = list(range(N))
         for k in range(0, N + 1):
@@ -777,7 +908,9 @@ def gather_cell(ctx, case):
     ctx.label(case["given"])
     rest = [m for m in range(N) if m not in sel]
     ctx.nt = sel != sorted(sel) or case["given"] == "cyclic"
-    arr = np.array(sel, dtype=int)
+    dt = np.dtype(case.get("dtype", "int64"))
+    ctx.label("dims-" + dt.name)
+    arr = np.array(sel, dtype=dt)
     if case["given"] == "rdims":
         with ctx.sut("gather_wrap_dims"):
             r, c = ttu.gather_wrap_dims(N, rdims=arr.copy())
@@ -788,7 +921,7 @@ def gather_cell(ctx, case):
         er, ec = rest, sel
     elif case["given"] == "both":
         with ctx.sut("gather_wrap_dims"):
-            r, c = ttu.gather_wrap_dims(N, rdims=arr.copy(), cdims=np.array(case["other"], dtype=int))
+            r, c = ttu.gather_wrap_dims(N, rdims=arr.copy(), cdims=np.array(case["other"], dtype=dt))
         er, ec = sel, case["other"]
     else:
         with ctx.sut("gather_wrap_dims"):
@@ -814,7 +947,7 @@ def gather_cell(ctx, case):
 
 
 def _kr_ref(mats):
-    """column-wise Kronecker product, first argument slowest (np.kron on columns)"""
+    """column-wise Kronecker product, first argument slowest (np.kron on columns; result in the arguments' common type)"""
     ncol = mats[0].shape[1]
     cols = []
     for j in range(ncol):
@@ -823,7 +956,11 @@ def _kr_ref(mats):
             v = np.kron(v, M[:, j])
         cols.append(v)
     nrow = ref.prod(M.shape[0] for M in mats)
-    return np.stack(cols, axis=1) if ncol else np.zeros((nrow, 0))
+    return np.stack(cols, axis=1) if ncol else np.zeros((nrow, 0))  # noqa
+
+
+_KR_DTYPES = {"float64": np.float64, "int64": np.int64, "int32": np.int32, "uint8": np.uint8, "bool": np.bool_,
+              "float32": np.float32, "complex128": np.complex128}
 
 
 @st.composite
@@ -836,34 +973,104 @@ def _kr_case(draw, tier):
     mats = [draw(st.lists(st.lists(gen.values(vkind), min_size=ncol, max_size=ncol), min_size=r, max_size=r))
             for r in rows]
     layout = [draw(st.sampled_from(["C", "F"])) for _ in range(k)]
-    return dict(mats=mats, rows=rows, ncol=ncol, vkind=vkind, reverse=draw(st.booleans()), layout=layout)
+    # dtypes: all float64 / one generated dtype for all / an independent dtype per matrix (mixed: the product must be
+    # carried out in a type that holds every factor)
+    mode = draw(st.sampled_from(["float64", "float64", "same", "mixed", "mixed", "mixed"]))
+    pool = ["float64", "int64", "int32", "uint8", "bool", "float32", "complex128"]
+    if mode == "float64":
+        dtypes = ["float64"] * k
+    elif mode == "same":
+        dtypes = [draw(st.sampled_from(pool))] * k
+    else:
+        dtypes = [draw(st.sampled_from(pool)) for _ in range(k)]
+    # an integer-typed matrix holds integers: replace its entries by small integers (uint8 / bool: non-negative and so
+    # small that the product of four factors cannot wrap)
+    for j, dn in enumerate(dtypes):
+        if dn in ("int64", "int32"):
+            mats[j] = [[float(draw(st.integers(-6, 6))) for _ in range(ncol)] for _ in range(rows[j])]
+        elif dn == "uint8":
+            mats[j] = [[float(draw(st.integers(0, 3))) for _ in range(ncol)] for _ in range(rows[j])]
+        elif dn == "bool":
+            mats[j] = [[float(draw(st.integers(0, 1))) for _ in range(ncol)] for _ in range(rows[j])]
+        elif dn == "float32":
+            mats[j] = [[float(np.float32(v)) for v in row] for row in mats[j]]
+    # the product is scale-free: whole matrices of general floats scaled by 1e-6 / 1e+6 (bounds are relative)
+    scales = [1.0] * k
+    for j, dn in enumerate(dtypes):
+        if dn == "float64" and vkind == "float":
+            scales[j] = draw(st.sampled_from([1.0, 1.0, 1e-6, 1e6]))
+            mats[j] = [[v * scales[j] for v in row] for row in mats[j]]
+    imag = None
+    if "complex128" in dtypes:
+        imag = [[[float(draw(st.integers(-3, 3))) for _ in range(ncol)] for _ in range(r)] for r in rows]
+    return dict(mats=mats, rows=rows, ncol=ncol, vkind=vkind, reverse=draw(st.booleans()), layout=layout, dtypes=dtypes,
+                imag=imag, scales=scales)
+
+
+def kr_dtype_class(case):
+    """pure function of the case: 'all-float64' / 'same-<dtype>' / 'mixed' and whether the first matrix in effective
+    order has a narrower type than a later one"""
+    dts = case.get("dtypes") or ["float64"] * len(case["rows"])
+    if len(set(dts)) == 1:
+        return "all-float64" if dts[0] == "float64" else "same-" + dts[0]
+    eff = dts[::-1] if case["reverse"] else dts
+    first = np.dtype(_KR_DTYPES[eff[0]])
+    common = np.result_type(*[_KR_DTYPES[d] for d in eff])
+    return "mixed-first-narrower" if first != common else "mixed-first-widest"
 
 
 def _check_kr(ctx, case):
-    mats = [np.array(m, dtype=float).reshape(r, case["ncol"]) for m, r in zip(case["mats"], case["rows"])]
+    k = len(case["rows"])
+    dts = case.get("dtypes") or ["float64"] * k
+    mats = []
+    for j, (m, r) in enumerate(zip(case["mats"], case["rows"])):
+        M = np.array(m, dtype=float).reshape(r, case["ncol"])
+        if dts[j] == "complex128":
+            M = M + 1j * np.array(case["imag"][j], dtype=float).reshape(r, case["ncol"])
+        mats.append(M.astype(_KR_DTYPES[dts[j]]))
+    exact_inputs = [np.array(M, dtype=np.complex128) for M in mats]  # the values the arguments hold
     mats = [np.asfortranarray(m) if lay == "F" else np.ascontiguousarray(m) for m, lay in zip(mats, case["layout"])]
     rev = case["reverse"]
     ctx.nt = len(mats) >= 2 and len(set(case["rows"])) >= 2
+    cls = kr_dtype_class(case)
     ctx.label(f"k{len(mats)}", "reverse" if rev else "forward", case["vkind"],
-              "distinct-rows" if len(set(case["rows"])) >= 2 else "equal-rows")
+              "distinct-rows" if len(set(case["rows"])) >= 2 else "equal-rows", "dtypes-" + cls,
+              "scaled" if any(x != 1.0 for x in case.get("scales", [1.0])) else "unscaled")
     keep = [m.copy() for m in mats]
     with ctx.sut("khatrirao"):
         got = ttb.khatrirao(*mats, reverse=rev) if rev else ttb.khatrirao(*mats)
-    order = mats[::-1] if rev else mats
-    want = _kr_ref(order)
+    order = exact_inputs[::-1] if rev else exact_inputs
+    want = _kr_ref(order)  # complex128 reference of the values; real inputs give a zero imaginary part
     ctx.require(isinstance(got, np.ndarray) and got.shape == want.shape, "khatrirao-shape",
                 f"{getattr(got, 'shape', None)} vs {want.shape}")
-    if case["vkind"] == "int":
-        ctx.check(ref.same_exact(got, want), "khatrirao-columnwise-kronecker", ref.diff_info(got, want))
+    ctx.require(got.dtype.kind in "biufc", "khatrirao-numeric-result", got.dtype)
+    g = np.array(got, dtype=np.complex128)
+    intvalued = all(ref.is_intvalued(M.real) and ref.is_intvalued(M.imag) for M in exact_inputs)
+    if intvalued:
+        ok = bool(np.array_equal(g, want))
     else:
-        ctx.check(ref.same_bound(got, want, np.abs(want), len(mats)), "khatrirao-columnwise-kronecker",
-                  ref.diff_info(got, want))
-    ctx.check(all(np.array_equal(a, b) for a, b in zip(keep, mats)), "khatrirao-leaves-arguments")
+        # every factor is exact in the type it is held in (float32 entries are float32 values); NumPy rounds a product of
+        # two factors in their common type, so as soon as one argument is float32 some partial product may be rounded
+        # to float32, whichever way the factors are associated: float32 eps then, double eps otherwise
+        eps = float(np.finfo(np.float32).eps) if "float32" in dts else ref.EPS
+        tol = 64.0 * len(mats) * eps * np.abs(want) + 1e-290
+        ok = bool(np.all((np.abs(g - want) <= tol) | (g == want)))
+    ctx.check(ok, "khatrirao-columnwise-kronecker", ref.diff_info(g, want))
+    ctx.check(all(np.array_equal(a, b) and a.dtype == b.dtype for a, b in zip(keep, mats)), "khatrirao-leaves-arguments")
     if len(mats) >= 2:
         # stated equivalence (docstring): khatrirao(B, A, reverse=True) is khatrirao(A, B)
         with ctx.sut("khatrirao-reverse-equivalence"):
             other = ttb.khatrirao(*mats[::-1], reverse=not rev) if not rev else ttb.khatrirao(*mats[::-1])
         ctx.check(np.array_equal(other, got), "khatrirao-reverse-is-reversed-argument-list")
+    # the k-th call depends only on its own arguments: overwrite the first result, ask again
+    first = np.array(got, copy=True)
+    if got.flags.writeable and not any(np.shares_memory(got, m) for m in mats):
+        got[...] = 0
+    with ctx.sut("khatrirao-again"):
+        again = ttb.khatrirao(*mats, reverse=rev) if rev else ttb.khatrirao(*mats)
+    ctx.check(isinstance(again, np.ndarray) and again.shape == first.shape and np.array_equal(again, first),
+              "khatrirao-second-call-same-answer")
+    ctx.check(all(np.array_equal(a, b) for a, b in zip(keep, mats)), "khatrirao-result-does-not-alias-arguments")
 
 
 @cell("C17/khatrirao/sampled", strategy=_kr_case, quick=800, thorough=16000, shards=(1, 8))
@@ -927,4 +1134,11 @@ PREDICATES = {
     # tt_union_rows indexes B's sorted-unique index list with positions of B's first-occurrence list
     "second_not_sorted_and_partial_overlap": lambda c: (not pair_class(c)["b_sorted"]) and pair_class(c)["common"] > 0
     and pair_class(c)["b_only"] > 0,
+    # tt_ind2sub: `idx + prod(shape)` is evaluated in the dtype of idx / prod(shape) in the dtype of the shape entries
+    "idx_dtype_narrower_than_size": lambda c: not subset_classes(c)["idx_dtype_holds_size"],
+    "shape_product_overflows_and_negative_index": lambda c: (not subset_classes(c)["shape_prod_fits"])
+    and subset_classes(c)["has_negative"],
+    # gather_wrap_dims 'bc': rdims[0] - 1 in an unsigned dtype wraps for mode 0
+    "unsigned_first_mode_backward_cyclic": lambda c: c.get("given") == "cyclic" and c.get("cyc") == "bc"
+    and list(c.get("sel")) == [0] and str(c.get("dtype", "int64")).startswith("uint"),
 }
